@@ -637,7 +637,7 @@ fn cls_strategy() -> impl Strategy<Value = VClass> {
     ]
 }
 
-fn strategy(max_len: usize, min_len: usize) -> BoxedStrategy<Case> {
+pub fn strategy(max_len: usize, min_len: usize) -> BoxedStrategy<Case> {
     let step = (0usize..ALL_OPS.len(), any::<u8>(), any::<u8>(), any::<u8>(), k_strategy()).prop_map(|(o, res, a, b, k)| Step { op: ALL_OPS[o], res, a, b, k });
     (
         (crate::c01::be_strategy(), 1u8..=6, 1u8..=40, 1u8..=40, 0u8..=3),
